@@ -387,6 +387,78 @@ def nested_returns_to_lambdas(repo: Repo) -> int:
     return count
 
 
+def sink_consumers(repo: Repo) -> int:
+    """N19:  if c: x = A  else: x = B ;  S(x)     ->     if c: S(A)  else: S(B)
+    when every leaf of the if/else tree ends with an assignment to the same local x, S is the next statement, a
+    `raise` / `return` / expression statement that uses x exactly once, and x is used nowhere else.  (An error or a
+    handler chosen on a branch and then raised / called once after the join.)"""
+    count = 0
+
+    def leaves(st: ast.If, x: str) -> list[tuple[list[ast.stmt], ast.Assign]] | None:
+        out: list[tuple[list[ast.stmt], ast.Assign]] = []
+        for body in (st.body, st.orelse):
+            if not body:
+                return None
+            last = body[-1]
+            if isinstance(last, ast.Assign) and len(last.targets) == 1 and isinstance(last.targets[0], ast.Name) and last.targets[0].id == x:
+                out.append((body, last))
+            elif isinstance(last, ast.If) and last.orelse:
+                sub = leaves(last, x)
+                if sub is None:
+                    return None
+                out.extend(sub)
+            else:
+                return None
+        return out
+
+    def process(fn_node: ast.AST, body: list[ast.stmt]) -> None:
+        nonlocal count
+        i = 0
+        while i < len(body):
+            st = body[i]
+            for fld in ("body", "orelse", "finalbody"):
+                b = getattr(st, fld, None)
+                if isinstance(b, list) and b and isinstance(b[0], ast.stmt):
+                    process(fn_node, b)
+            for h in getattr(st, "handlers", []) or []:
+                process(fn_node, h.body)
+            if isinstance(st, ast.If) and st.orelse and i + 1 < len(body) and isinstance(body[i + 1], (ast.Raise, ast.Return, ast.Expr)):
+                S = body[i + 1]
+                names = [n for n in ast.walk(S) if isinstance(n, ast.Name) and isinstance(n.ctx, ast.Load)]
+                for cand in {n.id for n in names}:
+                    if sum(1 for n in names if n.id == cand) != 1:
+                        continue
+                    lv = leaves(st, cand)
+                    if not lv:
+                        continue
+                    total = [n for n in ast.walk(fn_node) if isinstance(n, ast.Name) and n.id == cand]
+                    if len(total) != len(lv) + 1:
+                        # also allow one preceding `x = None` / annotation-only initialisation
+                        inits = [a for a in ast.walk(fn_node) if isinstance(a, (ast.Assign, ast.AnnAssign)) and a not in [l for _, l in lv] and any(isinstance(t, ast.Name) and t.id == cand for t in (a.targets if isinstance(a, ast.Assign) else [a.target]))]
+                        if len(total) != len(lv) + 1 + len(inits) or not all(getattr(a, "value", None) is None or (isinstance(a.value, ast.Constant) and a.value.value is None) for a in inits):
+                            continue
+                    for leaf_body, last in lv:
+                        newS = copy.deepcopy(S)
+
+                        class T(ast.NodeTransformer):
+                            def visit_Name(self, node: ast.Name):  # noqa: N802
+                                if node.id == cand and isinstance(node.ctx, ast.Load):
+                                    return copy.deepcopy(last.value)
+                                return node
+
+                        leaf_body[-1] = ast.copy_location(T().visit(newS), last)
+                    del body[i + 1]
+                    count += 1
+                    break
+            i += 1
+
+    for f in repo.funcs.values():
+        if f.parent is None:
+            process(f.node, f.node.body)
+            ast.fix_missing_locations(f.node)
+    return count
+
+
 def loops_to_comprehensions(repo: Repo) -> int:
     """N9:  xs = [] ; for v in it: xs.append(e)   ->   xs = [e for v in it]   (the loop body is that one call)."""
     count = 0
@@ -478,6 +550,13 @@ def propagate_aliases(repo: Repo) -> int:
     repo.normalisation["rebinding_folds"] = _safe(repo, "N10 rebinding", fold_rebinding)
     repo.normalisation["nested_defs_to_lambdas"] = _safe(repo, "N11 nested defs", nested_returns_to_lambdas)
     n = _safe(repo, "N4 aliases", _propagate_all)
+    def _unroll(r: Repo) -> int:
+        from .normalize import unroll_literal_loops
+
+        return sum(unroll_literal_loops(m.tree) for m in r.modules.values())
+
+    repo.normalisation["sunk_consumers"] = _safe(repo, "N19 sink consumers", sink_consumers)
+    repo.normalisation["unrolled_after_aliases"] = _safe(repo, "N14 literal loops (after aliases)", _unroll)
     repo.normalisation["loops_to_comprehensions"] = _safe(repo, "N9 comprehensions", loops_to_comprehensions)
     # the function index may hold nested functions that were rewritten away or re-created: rebuild it
     repo.funcs.clear()
